@@ -617,6 +617,15 @@ theorem fail_closed_any_allow_failure (af : Nat → Binding → Bool) (hooks : L
         simp [taskStatusFail, hf, taskProp, hfile, buildReview] at h
         exact ⟨i, b, r, rfl, hf, hfile, h⟩
 
+/-- T1: the two facts `internal_error_denied_any_allow_failure` rests on, each sufficient alone —
+`HandleEvent` never sets `AllowFailure` (so `eventHandlerAF` is `eventHandler`, the model of the `req`
+lines), and nothing that can fail follows the `SetProp("admissionResponse", …)` in `handleRunHook`
+(so `taskProp` is the prop). Regenerated from the sources on every run. -/
+theorem admission_failure_not_allowed_and_prop_last :
+    ShellOp.Facts.c14HandleEventAllowFailure = ["false", "false", "<absent>"] ∧
+      ShellOp.Facts.c14RunHookFailsAfterProp = [] ∧
+      allowFailureNeverSet = true ∧ propStoredLast = true := by decide
+
 section Context
 open ShellOp.BindingContext ShellOp.Json
 
